@@ -128,7 +128,7 @@ M = [
     ("C13", "comment-eats-following-token", "dissect/cstruct/parser.py", 'pattern = r"(\\".*?\\"|\\\'.*?\\\')|(/\\*.*?\\*/|//[^\\r\\n]*)"', 'pattern = r"(\\".*?\\"|\\\'.*?\\\')|(/\\*.*?\\*/[ ]?[a-z]?|//[^\\r\\n]*)"'),
     ("C13", "crlf-comment-regression", "dissect/cstruct/parser.py", '(/\\*.*?\\*/|//[^\\r\\n]*)"', '(/\\*.*?\\*/|//[^\\r\\n]*$)"'),
     ("C13", "typedef-lookahead-dropped", "dissect/cstruct/parser.py", 'TOK.add(r"typedef(?=\\s)", "TYPEDEF")', 'TOK.add(r"typedef", "TYPEDEF")'),
-    ("C13", "add-type-compares-names", "dissect/cstruct/cstruct.py", "if not replace and (name in self.typedefs and self.resolve(self.typedefs[name]) != self.resolve(type_)):", "if not replace and (name in self.typedefs and self.typedefs[name] != type_ and isinstance(type_, str)):"),
+    ("C13", "add-type-compares-names", "dissect/cstruct/cstruct.py", "            name in self.typedefs and not _same_type(self.resolve(self.typedefs[name]), self.resolve(type_))", "            name in self.typedefs and self.typedefs[name] != type_ and isinstance(type_, str)"),
     ("C13", "resolve-unbounded", "dissect/cstruct/cstruct.py", "        for _ in range(10):\n            if type_name not in self.typedefs:", "        while True:\n            if type_name not in self.typedefs:"),
     ("C13", "enum-continuation-regression", "dissect/cstruct/parser.py", '            if lines and (stripped[0] in "=+-*/%&|^<>()" or', '            if lines and (stripped[0] in "+-*/%&|^<>()" or'),
     ("C13", "struct-registered-late", "dissect/cstruct/parser.py", "        tokens.reset_flags()\n        return st", "        if register and len(names) > 1:\n            self.cstruct.typedefs.pop(names[-1], None)\n        tokens.reset_flags()\n        return st"),
